@@ -420,7 +420,10 @@ class Evaluator:
     def st_For(self, st: ast.For, s: State):
         it = self.expr(st.iter, s)
         if it[0] in ('tuple', 'list') and 1 <= len(it[1]) <= 4 and \
-                all(_is_literal(x) for x in it[1]):
+                (all(_is_literal(x) for x in it[1]) or
+                 isinstance(st.iter, (ast.Tuple, ast.List))):
+            # a literal collection, or a display written in the loop header (its elements are
+            # evaluated once, before the first iteration): executed exactly
             return self._const_loop(st, s, it)
         return self._loop(st, s, it, None)
 
